@@ -131,7 +131,7 @@ def capture(kind, t, v, optimize):
             mpo = f(t, v, optimize=optimize)
         except Exception as e:
             rec['error'] = type(e).__name__
-            return rec
+            return rec, None
     finally:
         H.OpGraph, H.MPO = orig_og, orig_mpo
     rec['pairmap'] = [[int(a), int(b), int(o)] for (a, b), o in H.SpinOperatorConverter.oid_single_pair_map.items()]
